@@ -313,6 +313,18 @@ func writeReplay(e *Engine, g *Gen, r *propReport, name string, res *Result, why
 	}
 	fmt.Fprintf(&b, "goal: %s\n", truncate(res.Obl.Goal.S, 2000))
 	confirmed := false
+	if res.Status == "noanswer" && res.Candidate != nil {
+		// candidate input from the quantifier-free relaxation: believed only if it replays
+		cand := *res
+		cand.Model = res.Candidate
+		ok, testPath, out := runDirectReplay(e, g, r, name, &cand, dir, base)
+		fmt.Fprintf(&b, "note: the solver gave no answer on the full query; a candidate input from its quantifier-free relaxation was tried on the real code\n")
+		if testPath != "" {
+			fmt.Fprintf(&b, "replay_test: %s\n", testPath)
+		}
+		fmt.Fprintf(&b, "replay_output:\n%s\n", truncate(out, 4000))
+		confirmed = ok
+	}
 	if res.Status == "refuted" && res.Model != nil {
 		ok, testPath, out := runDirectReplay(e, g, r, name, res, dir, base)
 		if testPath != "" {
